@@ -67,6 +67,9 @@ partial def treeMap (file cond : Bool) : List String → List String
     "E" :: tag :: na :: a ++ treeMap file cond r
   | "V" :: t :: rest =>
     (match (if file then textRoundTripFile cond (unhexStr t) else textRoundTrip cond (unhexStr t)) with | some x => "V" :: hexStr x :: [] | none => ["V", "ERR"]) ++ treeMap file cond rest
+  | "C" :: t :: rest =>
+    -- comments are written and read verbatim; a file read normalises their line ends like everything else
+    "C" :: (if file then hexStr (normalizeNL (unhexStr t)) else t) :: treeMap file cond rest
   | x :: rest => x :: treeMap file cond rest
   | [] => []
 
@@ -94,6 +97,17 @@ def answer (toks : List String) : List String :=
       match readFixed (convScalar ty) k.toNat! s with
       | some (vs, _) => ["O unf 1" ++ joinSp vs]
       | none => ["O unf 0"]
+    else if kind == "H" then
+      -- Mat<M,N,complex>: every row is written and read through `~row` (Hermitian transpose), so the text holds the
+      -- conjugates of the elements: the imaginary parts (odd positions) come back with the sign flipped
+      match readFixed (convScalar ty) k.toNat! s with
+      | some (vs, _) =>
+        let flip (t : String) : String :=
+          if t == "nan" then t else
+          let n := hexToNat (String.ofList (t.toList.drop 1))
+          "b" ++ natToHex (n ^^^ (2 ^ 63)) 16
+        ["O unf 1" ++ joinSp ((List.range vs.length).map (fun i => if i % 2 = 1 then flip (vs.getD i "") else vs.getD i ""))]
+      | none => ["O unf 0"]
     else if kind == "S" then
       -- SymMat<M>: read a full M×M Mat, then `isNumericallySymmetric` (every pair incl. the diagonal compared through
       -- a difference, so a non-finite entry fails), then keep the lower triangle
@@ -102,7 +116,7 @@ def answer (toks : List String) : List String :=
         let m := k.toNat!.sqrt
         let ok := (List.range m).all (fun i => (List.range m).all (fun j =>
           let a := vs.getD (i * m + j) ""; let b := vs.getD (j * m + i) ""
-          a == b && a != "nan" && a != "b7ff0000000000000" && a != "bfff0000000000000"))
+          a == b && a != "b7ff0000000000000" && a != "bfff0000000000000"))   -- NaN == NaN passes, Inf - Inf does not
         if ok then ["O unf 1" ++ joinSp vs] else ["O unf 0"]
       | none => ["O unf 0"]
     else if kind == "R" then
